@@ -66,6 +66,25 @@ pub fn run(case: &str) -> Option<Outcome> {
             let exp = "min_sentence(A) = ['b']";
             match grm(na, src) { Err(e) => out(true, e, exp), Ok(g) => { let s = g.sentence_generator(|_| 1).min_sentence(RIdx(u32::from(g.rule_idx("A").unwrap()))); out(s.len() != 1, format!("{} tokens", s.len()), exp) } }
         }
+        // C07: a parse returns (in a child process: the failure is a stack overflow when the recoverer's copy of a deep
+        // parse stack is freed)
+        "c07_deeply_nested_input_returns" => return Some(in_child("c07_deep_inner", 60000, "the parse of 600000 opening and 600000 closing brackets (one n missing between them) returns, with one error and its repairs")),
+        "c07_deep_inner" => {
+            use lrlex::{DefaultLexerTypes, LRNonStreamingLexerDef, LexerDef};
+            use lrpar::{RTParserBuilder, RecoveryKind};
+            use lrtable::{from_yacc, Minimiser};
+            let exp = "one error with repairs";
+            let g = match grm(YaccKind::Original(YaccOriginalActionKind::GenericParseTree), "%start E\n%%\nE: '(' E ')' | 'n';") { Ok(g) => g, Err(e) => return Some(out(true, e, exp)) };
+            let (_, stable) = from_yacc(&g, Minimiser::Pager).ok()?;
+            let mut ld = LRNonStreamingLexerDef::<DefaultLexerTypes<u32>>::from_str("%%\n\\( '('\n\\) ')'\nn 'n'\n").ok()?;
+            let ids: std::collections::HashMap<&str, u32> = g.tokens_map().into_iter().map(|(k, v)| (k, u32::from(v))).collect();
+            ld.set_rule_ids(&ids);
+            let n = 600_000;
+            let input = format!("{}{}", "(".repeat(n), ")".repeat(n));
+            let lexer = ld.lexer(&input);
+            let (_, errs) = RTParserBuilder::new(&g, &stable).recoverer(RecoveryKind::CPCTPlus).parse_map(&lexer, &|_| (), &|_, _| ());
+            out(errs.len() != 1, format!("{} error(s)", errs.len()), exp)
+        }
         _ => return None,
     })
 }
@@ -79,9 +98,10 @@ fn in_child(case: &str, ms: u64, expected: &str) -> Outcome {
     let t0 = std::time::Instant::now();
     loop {
         match child.try_wait() {
-            Ok(Some(_)) => {
+            Ok(Some(st)) => {
                 let mut so = String::new();
                 if let Some(mut o) = child.stdout.take() { use std::io::Read; let _ = o.read_to_string(&mut so); }
+                if !st.success() { return out(true, format!("the process running the case died ({}): a stack overflow aborts the whole process", st), expected); }
                 return out(!so.contains("NOW-PASSES"), so.trim().to_string(), expected);
             }
             Ok(None) => {
